@@ -2,6 +2,8 @@
 
 package atree
 
+import "fmt"
+
 // C04 / C16 / C02: object-pool reuse is transparent. Whatever state an object
 // is in when it goes back to one of the process-wide pools, the object handed
 // out next behaves like a fresh one (the pool model hands back the most
@@ -49,4 +51,71 @@ func VH_C04_PoolReuse() {
 		vhAssert(b2.Len() == 0, "recycled type-id buffer is empty")
 	}
 	vhReach("pool-done")
+}
+
+// vFailEnc: an element whose encoding fails (a client Storable error).
+type vFailEnc struct{}
+
+var _ Value = vFailEnc{}
+var _ Storable = vFailEnc{}
+
+func (v vFailEnc) Storable(SlabStorage, Address, uint32) (Storable, error) { return v, nil }
+func (v vFailEnc) Encode(*Encoder) error                                   { return fmt.Errorf("injected element encode failure") }
+func (v vFailEnc) ByteSize() uint32                                        { return 1 }
+func (v vFailEnc) StoredValue(SlabStorage) (Value, error)                  { return v, nil }
+func (v vFailEnc) ChildStorables() []Storable                              { return nil }
+func (v vFailEnc) CanCopyNonRefSimple() bool                               { return true }
+func (v vFailEnc) CopyNonRefSimple() (Storable, error)                     { return v, nil }
+
+// Pool discipline of the real slab encoders (C16: independent goroutines must
+// not observe each other through the process-wide pools): after an encode --
+// successful or failing at any element -- every pooled buffer has been
+// returned exactly once, so two consecutive Gets never hand out one object.
+//
+//vh:prop C16 C04
+//vh:init cbor
+func VH_C16_EncoderPoolDiscipline() {
+	vhSetThreshold(256)
+	storage := vhNewByteStorage()
+	addr := vhAddr(1)
+	var root Slab
+	failAt := vhChoose("failat", 3) // 0: no failure; 1/2: first / second element fails to encode
+	elem := func(i int) Value {
+		if failAt == i+1 {
+			return vFailEnc{}
+		}
+		return vU64(uint64(7 + i))
+	}
+	switch vhChoose("container", 3) {
+	case 0:
+		a, _ := NewArray(storage, addr, vTypeInfo{id: 42})
+		_ = a.Append(elem(0))
+		_ = a.Append(elem(1))
+		root = a.root
+	case 1:
+		b := &vDigesterBuilder{levels: 4, known: map[uint64][4]uint64{}}
+		m, _ := NewMap(storage, addr, b, vTypeInfo{id: 42})
+		for i := 0; i < 2; i++ {
+			k := vBKey{val: uint64(i + 1), d: [4]uint64{uint64(10 * (i + 1)), 1, 1, 1}}
+			b.known[k.val] = k.d
+			_, _ = m.Set(vhCompareBK, vhHip, k, elem(i))
+		}
+		root = m.root
+	case 2: // array holding an inlined child array whose element fails
+		a, _ := NewArray(storage, addr, vTypeInfo{id: 42})
+		c, _ := NewArray(storage, addr, vTypeInfo{id: 43})
+		_ = c.Append(elem(0))
+		_ = a.Append(c)
+		_ = a.Append(elem(1))
+		root = a.root
+	}
+	_, err := EncodeSlab(root, storage.cborEncMode)
+	vhAssert((err != nil) == (failAt != 0), "encode fails exactly when an element fails")
+	b1 := getBuffer()
+	b2 := getBuffer()
+	vhAssert(b1 != b2, "a pooled buffer was returned twice (two goroutines could be handed the same buffer)")
+	t1 := getTypeIDBuffer()
+	t2 := getTypeIDBuffer()
+	vhAssert(t1 != t2, "a pooled type-id buffer was returned twice")
+	vhReach("pool-discipline-done")
 }
